@@ -183,11 +183,11 @@ var plans = map[string]*plan{
 	},
 	"C02": {
 		Level:          "exploration",
-		Rule:           "broker role: scripts over packet ids mixing QoS1 PUBLISH, QoS2 PUBLISH, DUP QoS2 PUBLISH carrying different bytes, PUBREL, repeated PUBREL and filler of more than two ring sizes; exhaustive up to length 5 over a 6-token alphabet with 2 ids (thorough 7), sampled longer scripts over 3..4 ids, every third with one or two CleanSession=0 reconnects of the sender, every tenth a burst (17..48 QoS2 exchanges open at once after 0..5 completed ones, retransmissions in between, released oldest first with repeated PUBRELs, identifiers then reused); client role: the same scripts sent by a scripted TCP peer to a library Client, OnPublish invocations = hand-overs; after every packet, at synctest quiescence, the publisher's wire must show exactly the one matching ack and the QoS2 subscriber's wire exactly the due hand-overs: none before PUBREL, one at PUBREL (when first PUBRELs come in exchange order as MQTT-4.6.0 demands of a sender; otherwise no later than the PUBREL of all older exchanges), never again, always the first PUBLISH's content. distinct = script shapes.",
-		Quick:          []batchSpec{{Test: "TestC02Broker", N: 8, Timeout: 15 * m}, {Test: "TestC02Client", N: 4, Timeout: 15 * m}},
-		Thorough:       []batchSpec{{Test: "TestC02Broker", N: 16, Timeout: 60 * m}, {Test: "TestC02Client", N: 8, Timeout: 60 * m}},
+		Rule:           "broker role: scripts over packet ids mixing QoS1 PUBLISH, QoS2 PUBLISH, DUP QoS2 PUBLISH carrying different bytes, PUBREL, repeated PUBREL and filler of more than two ring sizes; exhaustive up to length 5 over a 6-token alphabet with 2 ids (thorough 7), sampled longer scripts over 3..4 ids, every third with one or two CleanSession=0 reconnects of the sender, every tenth a burst (17..48 QoS2 exchanges open at once after 0..5 completed ones, retransmissions in between, released oldest first with repeated PUBRELs, identifiers then reused); client role: the same scripts sent by a scripted TCP peer to a library Client, OnPublish invocations = hand-overs; pipelined bursts (broker role): 2..10 exchanges opened, then one burst of more than three ring sizes (QoS 1 publishes of 40..8100 bytes, the PUBRELs, repeated PUBRELs, DUP retransmissions) written while the subscriber is not reading, so that a hand-over parks and the sender's inbound ring runs full, then the subscriber resumes: exactly one acknowledgement per packet in packet order, hand-overs in packet order, CRC intact; after every packet, at synctest quiescence, the publisher's wire must show exactly the one matching ack and the QoS2 subscriber's wire exactly the due hand-overs: none before PUBREL, one at PUBREL (when first PUBRELs come in exchange order as MQTT-4.6.0 demands of a sender; otherwise no later than the PUBREL of all older exchanges), never again, always the first PUBLISH's content. distinct = script shapes.",
+		Quick:          []batchSpec{{Test: "TestC02Broker", N: 8, Timeout: 15 * m}, {Test: "TestC02Client", N: 4, Timeout: 15 * m}, {Test: "TestC02Pipelined", N: 4, Timeout: 15 * m}},
+		Thorough:       []batchSpec{{Test: "TestC02Broker", N: 16, Timeout: 60 * m}, {Test: "TestC02Client", N: 8, Timeout: 60 * m}, {Test: "TestC02Pipelined", N: 8, Timeout: 60 * m}},
 		EvalStats:      []string{"c02.scripts"},
-		Floors:         map[string]int64{"c02.scripts": 8000, "c02.steps": 50000, "c02.client_scripts": 380, "c02.burst_scripts": 250, "c02.client_burst_scripts": 35, "classes": 3500},
+		Floors:         map[string]int64{"c02.scripts": 8000, "c02.steps": 50000, "c02.client_scripts": 380, "c02.burst_scripts": 250, "c02.client_burst_scripts": 35, "c02.pipelined_bursts": 110, "c02.pipelined_stalled": 100, "classes": 3500},
 		FloorsThorough: map[string]int64{"c02.scripts": 300000, "classes": 100000},
 		Assumptions:    []string{"quiescence by synctest.Wait()", "client role: library Client subscribed to c02/# against a scripted TCP peer, hand-over = OnPublishFunc invocations, quiescence = PINGREQ/PINGRESP barrier"},
 	},
@@ -205,11 +205,11 @@ var plans = map[string]*plan{
 	"C20": {
 		Level: "exploration",
 		Rule: "Client.Connect against a scripted TCP peer answering 27 CONNACK variants (codes 0..5 x SessionPresent, codes 6/255, reserved bits, wrong fixed-header flags, remaining length 0/1/3, cut packets, other packet types, garbage incl. an unterminated length, close without answer, silence until the 1 s connect timeout): result must be nil iff code 0, the ConnackCode for 1..5, an error otherwise; no panic; socket closed; no goroutine with a library frame left. " +
-			"Dispatch: sessions of 10..35 steps of Subscribe (1..3 filters, own callback per request, some filters refused with 0x80), Unsubscribe, inbound PUBLISH at QoS 0..2 on 10 topics incl. never-subscribed ones, QoS 2 with DUP repeats and repeated PUBREL; after a PINGREQ/PINGRESP barrier each request's callback must have been invoked exactly once per delivered message matching one of its active filters and never otherwise; Disconnect leaves no library goroutine. distinct = connect answers + (topic shape, QoS, number of requests).",
-		Quick:          []batchSpec{{Test: "TestC20", N: 8, Timeout: 15 * m}},
-		Thorough:       []batchSpec{{Test: "TestC20", N: 16, Timeout: 60 * m}},
+			"Dispatch: sessions of 10..35 steps of Subscribe (1..3 filters, own callback per request, some filters refused with 0x80), Unsubscribe, inbound PUBLISH at QoS 0..2 on 10 topics incl. never-subscribed ones, QoS 2 with DUP repeats and repeated PUBREL; after a PINGREQ/PINGRESP barrier each request's callback must have been invoked exactly once per delivered message matching one of its active filters and never otherwise; Disconnect leaves no library goroutine. Burst-then-close: after a completed Subscribe the server writes 5..64 matching PUBLISH packets in one write and closes at once while the first callback dwells 0..39 ms; at the client's teardown-finished event the callback must have run once per message, in order. distinct = connect answers + (topic shape, QoS, number of requests).",
+		Quick:          []batchSpec{{Test: "TestC20", N: 8, Timeout: 15 * m}, {Test: "TestC20BurstClose", N: 2, Timeout: 10 * m}},
+		Thorough:       []batchSpec{{Test: "TestC20", N: 16, Timeout: 60 * m}, {Test: "TestC20BurstClose", N: 4, Timeout: 30 * m}},
 		EvalStats:      []string{"c20.connect_cases", "c20.inbound"},
-		Floors:         map[string]int64{"c20.connect_cases": 27, "c20.sessions": 230, "c20.inbound": 2000, "c20.callbacks_checked": 1000, "classes": 70},
+		Floors:         map[string]int64{"c20.connect_cases": 27, "c20.sessions": 230, "c20.inbound": 2000, "c20.callbacks_checked": 1000, "c20.burst_close_cases": 38, "classes": 70},
 		FloorsThorough: map[string]int64{"c20.connect_cases": 27, "c20.sessions": 5500, "classes": 150},
 		Assumptions:    []string{"PINGREQ/PINGRESP barrier as in C12", "filters with empty levels are not generated here (known finding F-C06-1 covers the matcher)"},
 	},
@@ -254,11 +254,11 @@ var plans = map[string]*plan{
 	"C05": {
 		Level: "fault_enumeration",
 		Rule: "the broker runs as separate OS processes (real ListenAndServe on 127.0.0.1, 16 KiB rings, connect timeout 1 s); a witness publisher/subscriber pair with numbered CRC payloads and an idle observer stay connected while attacker connections run: pre-CONNECT (every prefix of a valid CONNECT then close, every byte of it set to 0xff/0x00/+1, every wrong first packet type, unterminated / maximal / larger-than-ring remaining lengths, random bytes, silence until the connect timeout), post-CONNECT (the C04 mutation corpus of all 14 packet types, PUBLISH packets from 8 KiB-16 to 1 MiB, packets a client must not send), disconnects (close at sampled byte offsets of SUBSCRIBE and QoS 2 PUBLISH, close of a subscriber of the witness topic at seeded delays while 40 witness messages are flowing to it, half-close, a subscriber that stops reading then closes, a subscriber with a 4 KiB receive buffer that stops reading while a bystander floods it until the bystander's own PINGREQs go unanswered and is then cut - the bystander must come back). " +
-			"After every attack: the broker process is alive (exit status and stderr captured), witness and observer connections are open, and the witness subscriber received exactly the next witness messages in order and nothing else. distinct = (attack class, variant).",
-		Quick:          []batchSpec{{Test: "TestC05", N: 8, Timeout: 20 * m, Weight: 2}},
-		Thorough:       []batchSpec{{Test: "TestC05", N: 16, Timeout: 90 * m}},
+			"After every attack: the broker process is alive (exit status and stderr captured), witness and observer connections are open, and the witness subscriber received exactly the next witness messages in order and nothing else. Teardown under delivery (in-process broker, net.Pipe, 16 KiB rings): 2..6 publishers flood a subscriber that has stopped reading until their own PINGREQs go unanswered, the subscriber is cut at a seeded delay, 6..11 rounds per case; every publisher must stay connected and answer, and a marker each publishes afterwards must reach a witness exactly once. distinct = (attack class, variant).",
+		Quick:          []batchSpec{{Test: "TestC05", N: 8, Timeout: 20 * m, Weight: 2}, {Test: "TestC05Teardown", N: 4, Timeout: 15 * m}},
+		Thorough:       []batchSpec{{Test: "TestC05", N: 16, Timeout: 90 * m}, {Test: "TestC05Teardown", N: 8, Timeout: 60 * m}},
 		EvalStats:      []string{"c05.attacks"},
-		Floors:         map[string]int64{"c05.attacks": 1200, "c05.broker_processes": 8, "c05.witness_messages": 8000, "c05.stalled_reached": 3, "classes": 25},
+		Floors:         map[string]int64{"c05.attacks": 1200, "c05.broker_processes": 8, "c05.witness_messages": 8000, "c05.stalled_reached": 3, "c05.teardown_rounds": 150, "c05.teardown_stalled_rounds": 60, "classes": 25},
 		FloorsThorough: map[string]int64{"c05.attacks": 30000, "classes": 25},
 		Assumptions:    []string{"loopback TCP; read/write errors below the socket API cannot be injected from outside the broker process (they are in C09/C16 via the chaos conn)", "no address-space cap is imposed: after the fix of the 5-byte remaining length an unauthenticated connection can make the broker reserve at most 256 MiB"},
 	},
